@@ -398,6 +398,46 @@ theorem solo_push_op {fx : Bool} (s : St) (t : Nat) (d : Bool) (v : Nat) (ht : t
   · have : s1.pushed = (N0 nd).data :: s.pushed := pu1
     simp [this, N0]
 
+/-- Whole solo operation, any tagging discipline, from the structural invariant: at most
+    `soloBound push` events of `t` from `inv` to `ret`; the answer is `false` exactly for a pop
+    on the empty deque. -/
+theorem solo_bound_of_glob {fx : Bool} (s : St) (t : Nat) (ht : t < s.n)
+    (hg : Glob s.anchor s.chain s.nodes s.used) (hf : FinUsed s) (hidle : s.pc t = .idle)
+    (push d : Bool) (v : Nat) :
+    ∃ (evs : List Ev) (ok : Bool) (r : Nat) (s' : St), evs.length ≤ soloBound push ∧
+      (∀ e ∈ evs, Ev.tid e = t) ∧ evs.head? = some (.inv t push d v) ∧
+      evs.getLast? = some (.ret t ok r) ∧ runLog (stepG fx) s evs = some s' ∧ s'.pc t = .idle ∧
+      (∀ u, u ≠ t → s'.pc u = s.pc u) ∧ (ok = false ↔ (push = false ∧ contents s = [])) := by
+  have key : ∀ (mid : List Ev) (ok : Bool) (r : Nat), mid.length + 2 ≤ soloBound push →
+      (∀ e ∈ mid, Ev.tid e = t) →
+      (Ev.inv t push d v :: mid ++ [Ev.ret t ok r]).length ≤ soloBound push ∧
+      (∀ e ∈ (Ev.inv t push d v :: mid ++ [Ev.ret t ok r]), Ev.tid e = t) ∧
+      (Ev.inv t push d v :: mid ++ [Ev.ret t ok r]).head? = some (.inv t push d v) ∧
+      (Ev.inv t push d v :: mid ++ [Ev.ret t ok r]).getLast? = some (.ret t ok r) := by
+    intro mid ok r hl hm
+    refine ⟨by simp; omega, ?_, rfl, ?_⟩
+    · intro e he
+      simp only [List.cons_append, List.mem_cons, List.mem_append] at he
+      rcases he with he | he | he | he
+      · rw [he]; rfl
+      · exact hm e he
+      · rw [he]; rfl
+      · cases he
+    · have : Ev.inv t push d v :: mid ++ [Ev.ret t ok r] = (Ev.inv t push d v :: mid) ++ [Ev.ret t ok r] := rfl
+      rw [this, List.getLast?_append]; simp
+  cases push
+  · by_cases he : s.chain = []
+    · obtain ⟨s', h1, h2, _, h3, _⟩ := solo_pop_op_empty (fx := fx) s t d v ht hg hidle he
+      obtain ⟨k1, k2, k3, k4⟩ := key [.ld t s.anchor] false 0 (by simp [soloBound]) (by simp [Ev.tid])
+      exact ⟨_, false, 0, s', k1, k2, k3, k4, h1, h2, h3, by simp [contents, he]⟩
+    · obtain ⟨mid, r, s', h1, h2, h3, h4, _, h5, _⟩ :=
+        solo_pop_op_nonempty (fx := fx) s t d v ht hg hidle he
+      obtain ⟨k1, k2, k3, k4⟩ := key mid true r (by simp [soloBound]; omega) h2
+      exact ⟨_, true, r, s', k1, k2, k3, k4, h3, h4, h5, by simp [contents, he]⟩
+  · obtain ⟨mid, s', h1, h2, h3, h4, _, h5, _⟩ := solo_push_op (fx := fx) s t d v ht hg hf hidle
+    obtain ⟨k1, k2, k3, k4⟩ := key mid true 0 (by simp [soloBound]; omega) h2
+    exact ⟨_, true, 0, s', k1, k2, k3, k4, h3, h4, h5, by simp⟩
+
 /-- facts about the state after a concrete log, for instantiating the theorems -/
 theorem idle_of_map {lg : List Ev} {s : St} (h : runLog stepF (init 2) lg = some s) {c : List Nat}
     (hm : (runLog stepF (init 2) lg).map (fun s => (s.pc 0, contents s)) = some (.idle, c)) :
